@@ -54,6 +54,13 @@ func Corpus() []Scenario {
 			drain(1), cmd(1, "search"), cmd(1, "probe"), qs(1)}},
 		{Name: "failing-fetch-leaves-no-trace", K: 1, Ops: []Op{ // FETCH BODY[9] of a single-part message: NO, and no \\Seen in the view
 			sel(0, 0), app(0, 0), app(0, 0, 3), cmd(0, "probe"), fb(0, "fetchbadpart", 1), cmd(0, "probe"), fb(0, "fetchbadpart", 2), cmd(0, "noop"), cmd(0, "probe")}},
+		{Name: "move-of-expunged-message-announces", K: 2, Ops: []Op{ // a MOVE that moves nothing is still a command that permits EXPUNGE
+			sel(0, 0), sel(1, 0), app(0, 0), app(0, 0), drain(1), cmd(1, "noop"), cmd(1, "probe"),
+			store(0, []int{1}, "add", false, 1), cmd(0, "expunge"), drain(1), cmd(1, "search"), mv(1, []int{1}, 1), cmd(1, "probe"), qs(1)}},
+		{Name: "status-announces-held-removal", K: 2, Ops: []Op{ // STATUS (of another mailbox) flushes the selected mailbox with EXPUNGE permitted
+			sel(0, 0), sel(1, 0), app(0, 0), app(0, 0), drain(1), cmd(1, "noop"), cmd(1, "probe"),
+			store(0, []int{2}, "add", false, 1), cmd(0, "expunge"), drain(1), cmd(1, "search"),
+			{Kind: "cmd", S: 1, Cmd: "status", Mb: 1}, cmd(1, "probe"), qs(1)}},
 		{Name: "idle-bulk", K: 2, Bulk: true, Ops: []Op{
 			sel(0, 0), sel(1, 0), cmd(1, "idle"), app(0, 0), app(0, 0, 2), drain(1), store(0, []int{1}, "add", false, 3), drain(1),
 			cmd(1, "done"), cmd(1, "probe")}},
